@@ -104,7 +104,7 @@ _CHECK = None
 
 def _worker_main(args):
     """Body of one forked worker: executes its runs in order, appending one JSON line per run to `path`."""
-    (check_factory, seed, runs, worker_index, nworkers, tier, deadline, hang_cap, path) = args
+    (check_factory, seed, runs, worker_index, nworkers, tier, deadline, hang_cap, path, counter, total) = args
     global _CHECK
     faulthandler.enable()
     t0 = time.time()
@@ -125,7 +125,20 @@ def _worker_main(args):
                 chk.warmup(worker_index, nworkers, tier)
                 faulthandler.cancel_dump_traceback_later()
             emit({"warm_s": time.time() - t0})
-            for r in runs:
+            def run_numbers():
+                if counter is None:
+                    for r_ in runs:
+                        yield r_
+                    return
+                while True:
+                    with counter.get_lock():
+                        r_ = counter.value
+                        counter.value += 1
+                    if r_ >= total:
+                        return
+                    yield r_
+
+            for r in run_numbers():
                 if time.time() > deadline:
                     emit({"skipped_from": r})
                     break
@@ -209,7 +222,8 @@ def replay(check, path):
     return 0
 
 
-def run(check_factory, prop, tier, runs, nworkers=None, wall_cap=None, hang_cap=3600, extra_evidence=None, finalize=None):
+def run(check_factory, prop, tier, runs, nworkers=None, wall_cap=None, hang_cap=3600, extra_evidence=None, finalize=None,
+        affinity=True):
     """Run `runs` seeded runs over a fork pool; write evidence; print verdict; return exit code."""
     t_start = time.time()
     seed = rng.base_seed()
@@ -236,9 +250,13 @@ def run(check_factory, prop, tier, runs, nworkers=None, wall_cap=None, hang_cap=
 
     outdir = tempfile.mkdtemp(prefix="results_", dir=env.scratch_dir())
     procs = []
+    # affinity=True: run r goes to worker r mod nworkers (keeps JIT compilation of one profile in one worker);
+    # affinity=False: workers take the next run number from a shared counter (balances uneven run costs).
+    # Runs are hermetic, so which worker executes a run does not influence its outcome.
+    counter = None if affinity else ctx.Value("i", 0)
     for k in range(nworkers):
         path = os.path.join(outdir, "w%d.jsonl" % k)
-        pr = ctx.Process(target=_worker_main, args=((check_factory, seed, parts[k], k, nworkers, tier, deadline, hang_cap, path),))
+        pr = ctx.Process(target=_worker_main, args=((check_factory, seed, parts[k], k, nworkers, tier, deadline, hang_cap, path, counter, runs),))
         pr.start()
         procs.append((k, pr, path))
     for k, pr, path in procs:
